@@ -114,6 +114,15 @@ func raceInsert(rt *rapid.T, scen string) {
 		OnProfileEvents: func(ctx context.Context, e []ch.ProfileEvent) error { jitter(); return nil },
 		OnLogs:          func(ctx context.Context, l []ch.Log) error { return nil },
 	}
+	if rapid.Bool().Draw(rt, "rich-query") {
+		// per-query settings, parameters and an external table the client has to name itself
+		q.Settings = drawChSettings(rt, "query-setting")
+		q.Parameters = []proto.Parameter{{Key: "p", Value: "1"}}
+		ext := drawInput(rt, "ext", 1, 1)
+		q.ExternalData = protoInput(ext)
+		q.ExternalTable = rapid.SampledFrom([]string{"", "", "_x"}).Draw(rt, "ext-table")
+		q.QuotaKey, q.InitialUser, q.Secret = "qk", "u", "s"
+	}
 	var wg sync.WaitGroup
 	foreign := time.Duration(rapid.IntRange(0, 2000).Draw(rt, "foreign-delay-us")) * time.Microsecond
 	switch scen {
